@@ -19,3 +19,112 @@ package transport
 //@   props C04
 //@   modifies nothing
 //@   ensures [two-peers] is(result0, *localPeer) && is(result1, *localPeer) && result0.(*localPeer) != nil && result1.(*localPeer) != nil
+
+// ---------------------------------------------------------------------------
+// Rawsocket peer: framing and handshake (C15), panic freedom (C04)
+
+//@ immutable rawSocketPeer conn, serializer, sendLimit, recvLimit, closed, rd, wr, cancelSender, ctxSender, writerDone, log
+//@ fieldinv rawSocketPeer.conn : !isnil(v)
+//@ fieldinv rawSocketPeer.serializer : !isnil(v)
+//@ fieldinv rawSocketPeer.closed : v != nil
+//@ fieldinv rawSocketPeer.rd : v != nil
+//@ fieldinv rawSocketPeer.wr : v != nil
+//@ fieldinv rawSocketPeer.cancelSender : v != nil
+//@ fieldinv rawSocketPeer.ctxSender : !isnil(v)
+//@ fieldinv rawSocketPeer.writerDone : v != nil
+//@ fieldinv rawSocketPeer.log : !isnil(v)
+
+//@ pred be24(b0 mathint, b1 mathint, b2 mathint) = b0*65536 + b1*256 + b2
+
+// A 24-bit length is encoded big-endian in three bytes.
+//@ func intToBytes
+//@   props C15
+//@   requires 0 <= i && i < 16777216
+//@   pure
+//@   ensures [big-endian-24] be24(result[0], result[1], result[2]) == i
+//@   ensures [bytes] 0 <= result[0] && result[0] <= 255 && 0 <= result[1] && result[1] <= 255 && 0 <= result[2] && result[2] <= 255
+
+// bytesToInt is a loop over a variable shift; for the three-byte slices it is
+// used with, its result is checked exhaustively (bounded stand-in, see
+// /verif/bounded) rather than proved.
+//@ func bytesToInt
+//@   props C15
+//@   trusted
+//@   pure
+//@   ensures [big-endian-24] len(b) == 3 ==> result == be24(b[0], b[1], b[2])
+
+//@ func byteToLength
+//@   props C15
+//@   pure
+//@   ensures [power-of-two] b <= 15 ==> result == pow2(b + 9)
+
+//@ func fitRecvLimit
+//@   props C15
+//@   pure
+//@   ensures [range] 0 <= result && result <= 15
+//@   ensures [fits] recvLimit > 0 && result < 15 ==> pow2(result + 9) >= recvLimit
+//@   ensures [least] recvLimit > 0 && result > 0 ==> pow2(result + 8) < recvLimit
+//@   ensures [default] recvLimit <= 0 ==> result == 15
+//@   loop range byte(0xf)
+//@     invariant [below-fifteen] rangeiter < 15
+//@     invariant [smaller-do-not-fit] forall k mathint :: 0 <= k && k < rangeiter ==> pow2(k + 9) < recvLimit
+
+//@ func newRawSocketPeer
+//@   props C15 C07 C04
+//@   requires !isnil(conn) && !isnil(serializer) && !isnil(logger)
+//@   ensures [peer] result != nil && result.sendLimit == sendLimit && result.recvLimit == recvLimit && result.serializer == serializer && result.conn == conn
+//@   ensures [send-queue-bounded] chancap(result.wr) == outQueueSize
+
+// Outbound: a message is written as header {0, L2, L1, L0} followed by exactly
+// its serialised bytes, or not at all (too large for the limit the other side
+// announced or for the 24-bit length field, or unserialisable).
+//@ func (rs *rawSocketPeer) sendHandler
+//@   props C15 C04
+//@   requires rs != nil
+//@   callsite Write : [header-then-payload] (arg1 == header ==> len(b) <= rs.sendLimit && len(b) < 16777216 && header[0] == 0 && be24(header[1], header[2], header[3]) == len(b)) && (arg1 != header ==> arg1 == b)
+
+// Inbound: only data frames (type 0) within the announced limit are
+// forwarded, as real messages; an oversized frame or a frame of reserved type
+// ends the connection; PING is answered with a PONG header of the same length
+// followed by the same number of payload bytes.
+//@ func (rs *rawSocketPeer) recvHandler
+//@   props C15 C04
+//@   requires rs != nil
+//@   callsite Deserialize : [only-data-frames-within-the-limit-are-decoded] header[0] % 8 == 0 && length <= rs.recvLimit && length == be24(header[1], header[2], header[3]) && len(arg1) == length
+//@   sendsite forward wamp.Message : [only-decoded-messages-are-forwarded] m == msg
+//@   callsite Write : [pong-header-echoes-the-ping] header[0] == 2 && be24(header[1], header[2], header[3]) == length && length <= rs.recvLimit
+//@   callsite CopyN : [payload-of-exactly-the-announced-length] arg2 == length
+
+//@ func (rs *rawSocketPeer) Close
+//@   props C04
+//@   requires rs != nil
+
+// Server side of the handshake: a peer is created only for a well-formed
+// request, with the negotiated serializer and limits.
+//@ func serverHandshake
+//@   props C15 C04
+//@   requires !isnil(conn) && !isnil(logger)
+//@   returnsite : [peer-only-for-a-well-formed-request] isnil(result1) ==> result0 != nil && buf[0] == 127 && buf[2] == 0 && buf[3] == 0 && (buf[1] % 16 == 1 || buf[1] % 16 == 2 || buf[1] % 16 == 3)
+//@   returnsite : [error-means-no-peer] !isnil(result1) ==> result0 == nil
+//@   callsite newRawSocketPeer : [negotiated-limits] arg3 == pow2(buf[1] / 16 + 9) && arg4 == pow2(maxRecvLen + 9) && arg0 == conn && arg5 == outQueueSize
+//@   callsite newRawSocketPeer : [negotiated-serializer] (buf[1] % 16 == 1 ==> is(arg1, *serialize.JSONSerializer)) && (buf[1] % 16 == 2 ==> is(arg1, *serialize.MessagePackSerializer)) && (buf[1] % 16 == 3 ==> is(arg1, *serialize.CBORSerializer))
+
+//@ func clientHandshake
+//@   props C15 C04
+//@   requires !isnil(conn) && !isnil(logger) && (protocol == 1 || protocol == 2 || protocol == 3)
+//@   returnsite : [peer-only-if-the-router-accepted-this-serializer] isnil(result1) ==> result0 != nil && buf[0] == 127 && buf[1] % 16 == protocol
+//@   returnsite : [error-means-no-peer] !isnil(result1) ==> result0 == nil
+//@   callsite newRawSocketPeer : [negotiated-limits] arg3 == pow2(buf[1] / 16 + 9) && arg4 == pow2(maxRecvLen + 9) && arg0 == conn
+
+//@ func getProtoByte
+//@   props C15
+//@   pure
+//@   ensures [known-serializer] isnil(result1) ==> result0 == 1 || result0 == 2 || result0 == 3
+
+//@ func AcceptRawSocket
+//@   props C04
+//@   requires !isnil(conn) && !isnil(logger)
+
+//@ func ConnectRawSocketPeer
+//@   props C04
+//@   requires !isnil(ctx) && !isnil(logger)
